@@ -34,8 +34,10 @@ def allEntered (ds : List Disp) : Bool := ds.all (·.enter = .entered)
 structure Around where
   /-- a cancellation is delivered to the scope's `__aenter__` while (or right after) the concurrent enters run -/
   interrupted : Bool := false
-  /-- a cancellation request is still *pending* (requested, not yet delivered: `ctx.cancel()` with no suspension
-      since) when the scope exit starts: `gather`'s children are then cancelled before their first step -/
+  /-- a cancellation reaches the scope task before the `__aexit__` coroutines started by `gather` (scope exit, or
+      rollback after a failed enter) took their first step - a request still *pending* when the exit starts
+      (`ctx.cancel()` with no suspension since, a task-group abort hitting a runnable member) or one landing in the same
+      loop turn: `gather`'s children are then cancelled before they ever run -/
   pendingCancel : Bool := false
 deriving DecidableEq, Repr
 
@@ -49,6 +51,8 @@ def run (ds : List Disp) (a : Around) (bodyRaises : Bool) : List Ev × Bool :=
       (enterEvs 0 ds ++ [.body], true)     -- KNOWN FINDING: no `__aexit__` is ever started; the caller is cancelled
     else
       (enterEvs 0 ds ++ [.body] ++ exitEvs bodyRaises 0 ds, bodyRaises || ds.any (·.exitRaises))
+  else if a.pendingCancel then
+    (enterEvs 0 ds, true)                  -- KNOWN FINDING, rollback flavour: the rollback's exits are never started
   else
     (enterEvs 0 ds ++ exitEvs true 0 ds, true)          -- rollback with the failure; the body never runs
 
